@@ -605,6 +605,82 @@ def run_concurrent(ctx, model, scn, seed):
     return probs, diffs, observed
 
 
+# ---------------------------------------------------------------- a send while the handshake is still running
+# "session not ready" is one of the failure causes the property names.  State = handshake (client hello written,
+# server hello not yet received): the send must fail at its caller at once (MachineError from the noise layer),
+# hold nothing, and leave the stack usable whether the handshake then completes, fails, or is cut off.
+def gen_hs_send(ctx):
+    sc = []
+    # (a connection cut off while the handshake worker is still waiting is C04's open finding, not generated here)
+    for how in ("completes", "fails_then_reconnect"):
+        for sends in (1, 2):
+            sc.append({"cause": "handshake_send", "handshake": how, "sends": sends, "pre": 0, "reconnect": False,
+                       "dir": "down", "occ": 0, "op": ["send", "presence"], "layer": 2})
+    return sc
+
+
+def run_hs_send(ctx, model, scn, seed):
+    from .. import c12rig
+    rig = c12rig.Rig(ctx.scratch, seed=seed)
+    ins = Instr(rig)
+    workers = [Worker(), Worker()]
+    executed, obs, probs = [], [], []
+
+    def do(thread, op, failspec=None, role="op"):
+        w = workers[thread]
+        if w.stuck:
+            return None
+        ins.begin_op()
+        fn = (lambda: rig.op_send(op[1])) if op[0] == "send" else (lambda: rig.op_recv(op[1]))
+        st, r = w.run(fn, TIMEOUT)
+        if st == "done":
+            out = {"outcome": r["outcome"], "exc": r["exc"], "wire_frames": r["wire_frames"],
+                   "wire_error": r["wire_error"], "top": len(r["top"])}
+        else:
+            out = {"outcome": "blocked" if st == "blocked" else "harness_error", "exc": None if st == "blocked" else repr(r),
+                   "wire_frames": 0, "wire_error": None, "top": 0}
+        out.update({"locks": rig.lock_table(), "log": [list(x) for x in ins.log], "role": role, "thread": thread,
+                    "op": list(op)})
+        executed.append([thread, S(TOP) if op[0] == "send" else U(0), model_kind(op), list(failspec) if failspec else []])
+        obs.append(out)
+        return out
+    try:
+        rig.disconnect()
+        st, r = workers[1].run(lambda: rig._connect(stop_before_server_hello=True), 8.0)
+        if st != "done":
+            return ["harness: connect up to the client hello did not finish: %s %r" % (st, r)], [], []
+        state = rig.noise._wa_noiseprotocol.state
+        if state != "handshake":
+            return ["harness: protocol state %r after the client hello, expected handshake" % state], [], []
+        for i in range(scn["sends"]):
+            do(i % 2, ("send", "presence"), failspec=(S(2), 0, 1), role="fault")
+        if scn["handshake"] == "completes":
+            st, r = workers[1].run(lambda: rig._connect_finish(), 8.0)
+        elif scn["handshake"] == "fails_then_reconnect":
+            st, r = workers[1].run(lambda: rig._connect_finish(corrupt=True), 8.0)
+            if st == "done":
+                st, r = workers[1].run(lambda: rig.reconnect(drop_stale_segments=True), 8.0)
+        if st != "done":
+            probs.append("the handshake / reconnect after the failed send did not finish (%s %r): a send made while "
+                         "the session was not ready keeps the stack from coming up" % (st, r))
+            if st == "blocked":
+                workers[1] = Worker()
+        for thread, op in FOLLOWUPS:
+            do(thread, op, role="followup")
+    finally:
+        for w in workers:
+            w.stop()
+        try:
+            rig.close()
+        except Exception:
+            pass
+    oscn = dict(scn, cause="not_transport_down")
+    probs += oracle(oscn, obs, {"reconnect": "done"})
+    pred = model_predict(model, build_table(True, True), executed) if model else None
+    diffs = compare(obs, pred) if model else []
+    return probs, diffs, short_obs(obs)
+
+
 # ---------------------------------------------------------------- comparison
 OUTCOME = {0: "ok", 1: "raise", 2: "blocked", 3: "model_fuel"}
 
@@ -814,6 +890,34 @@ def run(ctx):
                                                                   "observed": observed}, found_input=False)
         if idx == 0:
             ctx.add_sample({"scenario": scn, "phases": observed}, limit=9)
+    n_hs = 0
+    for idx, scn in enumerate(gen_hs_send(ctx)):
+        if n_oracle >= 6 or n_corr >= 6:
+            break
+        try:
+            probs, diffs, observed = run_hs_send(ctx, model, scn, 2000 + idx)
+        except Exception as e:
+            ctx.violation("harness:rig_failed", {"scenario": scn, "error": "%s: %s" % (e.__class__.__name__, e)},
+                          found_input=False)
+            n_corr += 1
+            continue
+        n_hs += 1
+        evaluations += 1
+        ops_total += len(observed)
+        by_cause["handshake_send"] = by_cause.get("handshake_send", 0) + 1
+        distinct.add(json.dumps(["handshake_send", scn["handshake"], scn["sends"]]))
+        if probs:
+            n_oracle += 1
+            ctx.violation("oracle:send_during_handshake_wedges_the_stack",
+                          {"scenario": scn, "seed": 2000 + idx, "problems": probs, "observed": observed,
+                           "model_diffs": diffs[:6]})
+        elif diffs:
+            n_corr += 1
+            ctx.violation("correspondence:C12.handshake_send", {"scenario": scn, "seed": 2000 + idx, "diffs": diffs[:8],
+                                                                "observed": observed}, found_input=False)
+        if idx == 1:
+            ctx.add_sample({"scenario": scn, "ops": observed}, limit=10)
+    ctx.coverage["send_during_handshake_cases"] = n_hs
     ctx.coverage["concurrent_read_cases"] = n_conc
     ctx.coverage["coalesced_cases"] = n_coal
     ctx.coverage["coalesced_cases_with_a_raising_read"] = n_coal_fail
@@ -852,8 +956,8 @@ def replay(ctx, data):
     scn = case["scenario"]
     exe = ctx.build_model("C12")
     model = modelrun.Model(exe) if exe else None
-    if scn.get("cause") in ("coalesced", "concurrent"):
-        fn = run_coalesced if scn["cause"] == "coalesced" else run_concurrent
+    if scn.get("cause") in ("coalesced", "concurrent", "handshake_send"):
+        fn = {"coalesced": run_coalesced, "concurrent": run_concurrent, "handshake_send": run_hs_send}[scn["cause"]]
         probs, diffs, observed = fn(ctx, model, scn, case.get("seed", 0))
         if model:
             model.close()
